@@ -46,6 +46,10 @@ def event_from_json(event_json) -> Event:
             and is_hex(event_json["sig"], 128)
             and type(event_json["created_at"]) is int
             and type(event_json["kind"]) is int
+            # the Event constructor puts the current time in place of a created_at of 0:
+            # what is verified and stored must be what was sent
+            and event.created_at == event_json["created_at"]
+            and event.kind == event_json["kind"]
             and isinstance(event_json["tags"], list)
             and all(
                 isinstance(tag, (list, tuple))
